@@ -110,6 +110,8 @@ type Profile struct {
 	Order     string // "" random | asc | desc | alt : insertion order for balance profiles
 	ReadsW    int    // weight of single random reads
 	NoLvfo    bool
+	ToggleFast bool // every reopen independently chooses fast index on/off
+	Touch      bool // sprinkle read-only calls that may memoise (proofs, hashes)
 }
 
 // tracked approximation of the history, to generate mostly-valid operations
@@ -240,6 +242,7 @@ func obs(r *rand.Rand, g *keyGen, t *track, full bool, ops *[][]string) {
 		*ops = append(*ops, []string{"r", "v" + i64(t.first()-1), "size"})
 	}
 	bookkeeping(r, g, t, ops)
+	*ops = append(*ops, []string{"audit", "nodes"}, []string{"audit", "fast"})
 }
 
 // genM1 generates one MutableTree history.
@@ -312,7 +315,11 @@ func genM1(r *rand.Rand, p Profile, id string) Case {
 			ops = append(ops, []string{"rollback"})
 			t.dirty = false
 		case "reopen":
-			ops = append(ops, []string{"reopen"})
+			if p.ToggleFast {
+				ops = append(ops, []string{"reopen", fmt.Sprintf("fast=%v", r.Intn(2) == 0)})
+			} else {
+				ops = append(ops, []string{"reopen"})
+			}
 			t.cur = t.latest()
 			t.dirty = false
 		case "load":
@@ -389,8 +396,78 @@ func genM1(r *rand.Rand, p Profile, id string) Case {
 		case "whash":
 			ops = append(ops, []string{"whash"})
 			continue
+		case "reopenat":
+			// a fresh tree object that loads an older version directly (no Load() of the latest first)
+			if len(t.versions) == 0 {
+				continue
+			}
+			v := t.versions[r.Intn(len(t.versions))]
+			ops = append(ops, []string{"reopenat", i64(v), fmt.Sprintf("fast=%v", r.Intn(3) != 0)})
+			t.cur = v
+			t.dirty = false
+			obs(r, g, t, false, &ops)
+		case "staleidx":
+			// index disabled, history rewritten up to the same version number, index re-enabled
+			if len(t.versions) < 2 || t.cur != t.latest() {
+				continue
+			}
+			v := t.versions[len(t.versions)-2]
+			ops = append(ops, []string{"reopen", "fast=false"}, []string{"lvfo", i64(v)},
+				[]string{"set", hx(g.key()), hx([]byte("rewritten"))}, []string{"rm", hx(g.key())}, []string{"save"},
+				[]string{"reopen", "fast=true"})
+			t.cur = t.latest()
+			obs(r, g, t, false, &ops)
+		case "proofs":
+			tg := "w"
+			if len(t.versions) > 0 && r.Intn(4) != 0 {
+				tg = "v" + i64(t.versions[r.Intn(len(t.versions))])
+			}
+			for _, k := range g.pool {
+				ops = append(ops, []string{"r", tg, "proof", hx(k)})
+			}
+			for i := 0; i < 4; i++ {
+				ops = append(ops, []string{"r", tg, "proof", hx(g.probe())})
+			}
+			continue
+		case "touch":
+			tg := "w"
+			if len(t.versions) > 0 && r.Intn(3) == 0 {
+				tg = "v" + i64(t.versions[r.Intn(len(t.versions))])
+			}
+			ops = append(ops, []string{"r", tg, "touch", hx(g.key())})
+			continue
+		case "resave":
+			// reopen at / load an older version and commit again: identical or different content
+			if len(t.versions) < 2 {
+				continue
+			}
+			v := t.versions[r.Intn(len(t.versions)-1)]
+			ops = append(ops, []string{"load", i64(v)})
+			t.cur = v
+			switch r.Intn(3) {
+			case 0:
+				ops = append(ops, []string{"set", hx(g.key()), hx(g.value())})
+			case 1: // try to redo nothing: identical iff next version had no writes
+			}
+			ops = append(ops, []string{"save"})
 		case "obs":
 			obs(r, g, t, false, &ops)
+			continue
+		case "iters":
+			tg := "w"
+			if len(t.versions) > 0 && r.Intn(3) == 0 {
+				tg = "v" + i64(t.versions[r.Intn(len(t.versions))])
+			}
+			for i := 0; i < 6; i++ {
+				a, b := optTok(r, g), optTok(r, g)
+				if r.Intn(5) == 0 {
+					b = a
+				}
+				asc := strconv.Itoa(r.Intn(2))
+				ops = append(ops, []string{"r", tg, "iter", a, b, "0", asc})
+				ops = append(ops, []string{"r", tg, "iter", a, b, "1", asc})
+				ops = append(ops, []string{"r", tg, "iterr", a, b, "0", asc})
+			}
 			continue
 		}
 		muts++
